@@ -16,6 +16,10 @@ StructureOnly(d, f, t) ==
   \E k \in f..t : (\A i \in (f + 1)..k : d[i].k = "c") /\ (\A i \in (k + 1)..t : d[i].k = "o")
 
 InRange(d, p) == 0 <= p /\ p <= Len(d)
+(* total access to attribute records (recorded documents may lack a declared attribute when the code
+   under test is broken; the verdict must still be computed) *)
+FieldOr(r, name, dflt) == IF name \in DOMAIN r THEN r[name] ELSE dflt
+WithField(r, name, v) == [x \in (DOMAIN r) \cup {name} |-> IF x = name THEN v ELSE r[x]]
 
 (* What the structure flag tests in the code (content_between): from `f` it steps out of nodes while
    nothing follows in them, then walks down first children, consuming one unit of t - f per level.
@@ -101,12 +105,12 @@ Apply(st, d, ra) ==
          IF i = 0 THEN Fail
          ELSE IF DeclaredAttr(d[i].t, st.attr)
               THEN LET av == AttrValue(d[i].t, st.attr, st.value) IN
-                   IF av.ok THEN Ok([d EXCEPT ![i].a[st.attr] = av.v], ra) ELSE Fail
+                   IF av.ok THEN Ok([d EXCEPT ![i].a = WithField(@, st.attr, av.v)], ra) ELSE Fail
               ELSE Ok(d, ra)
     [] st.type = "docAttr" ->
          IF DeclaredAttr(TopType, st.attr)
          THEN LET av == AttrValue(TopType, st.attr, st.value) IN
-              IF av.ok THEN Ok(d, [ra EXCEPT ![st.attr] = av.v]) ELSE Fail
+              IF av.ok THEN Ok(d, WithField(ra, st.attr, av.v)) ELSE Fail
          ELSE Ok(d, ra)
 
 (* position maps: ranges as triples *)
@@ -164,8 +168,9 @@ InvertStep(st, d, ra) ==
     [] st.type = "removeNodeMark" ->
          LET i == NodeTokAt(d, st.pos) IN
          IF i = 0 \/ ~IsInSet(st.mark, d[i].m) THEN st ELSE [st EXCEPT !.type = "addNodeMark"]
-    [] st.type = "attr" -> [st EXCEPT !.value = d[NodeTokAt(d, st.pos)].a[st.attr]]
-    [] st.type = "docAttr" -> [st EXCEPT !.value = ra[st.attr]]
+    [] st.type = "attr" -> [st EXCEPT !.value = IF InRange(d, st.pos) /\ NodeTokAt(d, st.pos) # 0
+                                                 THEN FieldOr(d[NodeTokAt(d, st.pos)].a, st.attr, "null") ELSE "null"]
+    [] st.type = "docAttr" -> [st EXCEPT !.value = FieldOr(ra, st.attr, "null")]
 
 (* ---- rebasing over a mapping (reference; C17 constrains only separated steps) ---- *)
 Dropped == [type |-> "none"]
